@@ -14,27 +14,36 @@ use toodee::{
 };
 
 /// A third-party implementor: only the REQUIRED trait methods, every default inherited (C13).
+/// With `LENIENT` set (root kind "torus") its index operators wrap around instead of panicking: the traits require the
+/// operators but say nothing about out-of-range behaviour, so a provided method must not rely on them for its own
+/// argument checks.
 pub struct Plain<T>(pub TooDee<T>);
+thread_local! { pub static LENIENT: std::cell::Cell<bool> = const { std::cell::Cell::new(false) }; }
+fn wrap(i: usize, n: usize) -> usize {
+    if n > 0 && LENIENT.with(|l| l.get()) { i % n } else { i }
+}
 
 impl<T> Index<usize> for Plain<T> {
     type Output = [T];
     fn index(&self, r: usize) -> &[T] {
-        &self.0[r]
+        &self.0[wrap(r, self.0.num_rows())]
     }
 }
 impl<T> Index<Coordinate> for Plain<T> {
     type Output = T;
     fn index(&self, c: Coordinate) -> &T {
-        &self.0[c]
+        &self.0[(wrap(c.0, self.0.num_cols()), wrap(c.1, self.0.num_rows()))]
     }
 }
 impl<T> IndexMut<usize> for Plain<T> {
     fn index_mut(&mut self, r: usize) -> &mut [T] {
+        let r = wrap(r, self.0.num_rows());
         &mut self.0[r]
     }
 }
 impl<T> IndexMut<Coordinate> for Plain<T> {
     fn index_mut(&mut self, c: Coordinate) -> &mut T {
+        let c = (wrap(c.0, self.0.num_cols()), wrap(c.1, self.0.num_rows()));
         &mut self.0[c]
     }
 }
@@ -403,6 +412,11 @@ macro_rules! def_mut_call {
                 ("row", false, "cmp") => recv.sort_unstable_by_row(line, |x, y| { fault::tick(fault::Site::Cmp); x.key().cmp(&y.key()) }),
                 ("row", true, "key") => recv.sort_by_row_key(line, |x| { fault::tick(fault::Site::Key); x.key() }),
                 ("row", false, "key") => recv.sort_unstable_by_row_key(line, |x| { fault::tick(fault::Site::Key); x.key() }),
+                // "skey": the key function returns an OWNING key type (String): key caches / drop-glue-gated paths
+                ("row", true, "skey") => recv.sort_by_row_key(line, |x| { fault::tick(fault::Site::Key); format!("{:010}", x.key()) }),
+                ("row", false, "skey") => recv.sort_unstable_by_row_key(line, |x| { fault::tick(fault::Site::Key); format!("{:010}", x.key()) }),
+                ("col", true, "skey") => recv.sort_by_col_key(line, |x| { fault::tick(fault::Site::Key); format!("{:010}", x.key()) }),
+                ("col", false, "skey") => recv.sort_unstable_by_col_key(line, |x| { fault::tick(fault::Site::Key); format!("{:010}", x.key()) }),
                 ("row", true, "ord") => recv.sort_row_ord::<()>(line),
                 ("row", false, "ord") => recv.sort_unstable_row_ord::<()>(line),
                 ("col", true, "cmp") => recv.sort_by_col(line, |x, y| { fault::tick(fault::Site::Cmp); x.key().cmp(&y.key()) }),
@@ -702,9 +716,10 @@ pub fn run_case<T: CellT>(case: &Value, log: &mut Vec<Value>) -> Outcome {
         Plain(Plain<T>),
         Slice(Vec<T>),
     }
+    LENIENT.with(|l| l.set(kind == "torus"));
     let mut rootobj = match kind {
         "owned" => RootObj::Owned(TooDee::from_vec(nc, nr, items)),
-        "plain" => RootObj::Plain(Plain(TooDee::from_vec(nc, nr, items))),
+        "plain" | "torus" => RootObj::Plain(Plain(TooDee::from_vec(nc, nr, items))),
         "slice_v" | "slice_m" => {
             let mut v = items;
             for i in 0..EXTRA {
